@@ -24,6 +24,11 @@
 (*   "ReadIgnoresCtx"  Read is a bare `<-readCh`                            *)
 (*   "ServeIgnoresCtx" ServeHTTP is a bare `readCh <-`                      *)
 (*   "NoSourceCheck"   (binding mutation) the ladder forgets Source == ""   *)
+(*   "RetrieveNoRecheck" (binding mutation) retrieve looks the connection   *)
+(*                     up under a read lock and, on a miss, stores a new    *)
+(*                     one under the write lock without looking again: two  *)
+(*                     concurrent first requests of a source create two     *)
+(*                     connection objects, one of them unregistered         *)
 (***************************************************************************)
 EXTENDS Integers, Sequences, FiniteSets, TLC, HttpRules
 
@@ -78,7 +83,7 @@ Ladder(r) ==
 
 \* retrieve(): atomic under the conns lock; a new connection has lastActivity 0 ("never")
 Retrieve(r) ==
-  /\ req[r].pc = "retrieve"
+  /\ req[r].pc = "retrieve" /\ "RetrieveNoRecheck" \notin Bug
   /\ LET a == req[r].addr IN
        IF tab[a] # 0
          THEN /\ req' = [req EXCEPT ![r].pc = "window", ![r].conn = tab[a]]
@@ -87,6 +92,21 @@ Retrieve(r) ==
               /\ conns' = Append(conns, [addr |-> a, closed |-> FALSE, last |-> -1])
               /\ tab' = [tab EXCEPT ![a] = Len(conns) + 1]
               /\ req' = [req EXCEPT ![r].pc = "window", ![r].conn = Len(conns) + 1]
+  /\ UNCHANGED <<now, nextTick, tick, rdr, crashed, dcount>>
+
+\* the mutation: look-up under the read lock ...
+RetrieveLookup(r) ==
+  /\ req[r].pc = "retrieve" /\ "RetrieveNoRecheck" \in Bug
+  /\ req' = IF tab[req[r].addr] # 0
+              THEN [req EXCEPT ![r].pc = "window", ![r].conn = tab[req[r].addr]]
+              ELSE [req EXCEPT ![r].pc = "store"]
+  /\ UNCHANGED <<now, nextTick, tick, tab, conns, rdr, crashed, dcount>>
+\* ... and, after a miss, an unconditional store under the write lock
+RetrieveStore(r) ==
+  /\ req[r].pc = "store" /\ Len(conns) < MaxConns
+  /\ conns' = Append(conns, [addr |-> req[r].addr, closed |-> FALSE, last |-> -1])
+  /\ tab' = [tab EXCEPT ![req[r].addr] = Len(conns) + 1]
+  /\ req' = [req EXCEPT ![r].pc = "window", ![r].conn = Len(conns) + 1]
   /\ UNCHANGED <<now, nextTick, tick, rdr, crashed, dcount>>
 
 \* the window between retrieve and the send (gate http.serve.window in the real code)
@@ -124,7 +144,7 @@ SendAbort(r) ==
 
 \* the HTTP client went away
 ReqCtxDone(r) ==
-  /\ req[r].pc \in {"ladder", "retrieve", "window", "send"} /\ req[r].ctx = "live"
+  /\ req[r].pc \in {"ladder", "retrieve", "store", "window", "send"} /\ req[r].ctx = "live"
   /\ req' = [req EXCEPT ![r].ctx = "done"]
   /\ UNCHANGED <<now, nextTick, tick, tab, conns, rdr, crashed, dcount>>
 
@@ -181,7 +201,8 @@ Clean ==
 
 \* steps of the implementation (as opposed to its environment)
 ImplNext ==
-  \/ \E r \in Reqs : Ladder(r) \/ Retrieve(r) \/ EnterSend(r) \/ SendPanic(r) \/ SendAbort(r)
+  \/ \E r \in Reqs : Ladder(r) \/ Retrieve(r) \/ RetrieveLookup(r) \/ RetrieveStore(r)
+                     \/ EnterSend(r) \/ SendPanic(r) \/ SendAbort(r)
                      \/ \E d \in Rdrs : Handoff(r, d)
   \/ \E d \in Rdrs : ReadAbort(d)
   \/ Clean
@@ -211,6 +232,11 @@ LadderSound ==
      /\ dcount[r] = 0
      /\ req[r].pc \in {"idle", "ladder", "done"}
      /\ req[r].pc = "done" => req[r].status = 400
+
+\* One connection per source: every connection object that is not closed is THE registered one of
+\* its address - only registered connections are announced once, receive all envelopes of the source
+\* and are seen by the cleaner (so that the idle timeout can fail their readers).
+LiveConnsRegistered == \A c \in 1..Len(conns) : ~conns[c].closed => tab[conns[c].addr] = c
 
 \* exactly once, and the answer says so
 AtMostOnce == \A r \in Reqs : dcount[r] <= 1
